@@ -130,6 +130,7 @@ static void run_interp(std::map<std::string, std::string> &m, Res &R) {
   Vec x = c12::parsevec(m["x"]), y = c12::parsevec(m["y"]);
   size_t n = x.size();
   std::string K = type + (per ? "-periodic" : "-natural") + "-interp-";
+  if (n >= 40 && type == "cubic" && per) K = "large-grid-" + K;  // input class: 40 or more knots (singular periodic system blows up)
   auto sp = c12::make(type, per);
   sp->Interpolate(c12::eig(x), c12::eig(y));
   double ys = 1 + maxabs(y), hm = hmin(x);
@@ -230,6 +231,7 @@ static void run_linearity(std::map<std::string, std::string> &m, Res &R) {
   Vec x = c12::parsevec(m["x"]), y = c12::parsevec(m["y"]);
   size_t n = x.size();
   std::string K = type + (per ? "-periodic" : "-natural") + "-interp-";
+  if (n >= 40 && type == "cubic" && per) K = "large-grid-" + K;
   Vec ev = evalpts(x);
   auto sp = c12::make(type, per);
   sp->Interpolate(c12::eig(x), c12::eig(y));
@@ -409,9 +411,31 @@ static void all_cases(bool thorough, CaseList &C) {
           }
         }
       }
+  // large grids (the quantifier goes up to hundreds of points): 40 and 200 knots, uniform and with a
+  // deterministic spacing pattern over {1,0.5,2}; ordinates: alphabet pattern, straight line, three unit vectors
+  for (int n : {40, 200})
+    for (int uni = 0; uni < 2; uni++) {
+      static const double S[3] = {1.0, 0.5, 2.0}, A[4] = {0.0, 1.0, -1.0, 2.0};
+      Vec g{-1.5};
+      for (int k = 0; k + 1 < n; k++) g.push_back(g.back() + (uni ? 0.5 : S[(k * 7 + k / 5) % 3]));
+      std::string xs = c12::vecstr(g);
+      for (std::string type : {"linear", "cubic", "akima"})
+        for (int per = 0; per < 2; per++) {
+          std::string head = std::string(";t=") + type + ";bc=" + (per ? "per" : "nat") + ";x=" + xs + ";y=";
+          Vec pat(n), units(n, 0.0), line(n);
+          for (int k = 0; k < n; k++) { pat[k] = A[(3 * k + k / 4) % 4]; line[k] = 1 + 0.5 * g[k]; }
+          units[1] = 1; units[n / 2] = -1; units[n - 2] = 2;
+          if (per) pat[n - 1] = pat[0];
+          C.push_back("i" + head + c12::vecstr(pat));
+          C.push_back("i" + head + c12::vecstr(units));
+          if (!per) C.push_back("i" + head + c12::vecstr(line));
+          if (type != "akima") C.push_back("l" + head + c12::vecstr(units));
+          if (type != "akima" && n == 40) C.push_back("l" + head + c12::vecstr(pat));
+        }
+    }
   // fits: data on a finer grid than the fit grid
   struct FG { std::string fg; double lo, hi, step; };
-  std::vector<FG> FGS = {{"0,0.5,2", 0, 2, 0.125}, {"0,1,3", 0, 3, 0.25}, {"-1.5,0.5,0.5", -1.5, 0.5, 0.125}, {"0,0.3,1", 0, 1, 0.0625}, {"0,1,2", 0, 2, 0.25}, {"0,0.75,2", 0, 2, 0.125}};
+  std::vector<FG> FGS = {{"0,0.5,2", 0, 2, 0.125}, {"0,1,3", 0, 3, 0.25}, {"-1.5,0.5,0.5", -1.5, 0.5, 0.125}, {"0,0.3,1", 0, 1, 0.0625}, {"0,1,2", 0, 2, 0.25}, {"0,0.75,2", 0, 2, 0.125}, {"0,0.5,20", 0, 20, 0.125}};
   for (auto &fg : FGS) {
     Vec x; for (double r = fg.lo; r <= fg.hi + 1e-12; r += fg.step) x.push_back(r);
     auto parts = bsx::split(fg.fg, ',');
@@ -483,7 +507,7 @@ int main(int argc, char **argv) {
       "evaluation points = every knot, knot +-1e-9, quarter/mid points; one-sided limits of value/slope/curvature at every interval end from 4 samples "
       "(exact for piecewise cubics); checks: data at knots, continuity, C1 (cubic/akima), straight lines (natural), end curvature (natural cubic), "
       "periodic end value/slope/curvature, superposition over the cardinal basis (linear,cubic), full comparison with a long-double reference "
-      "(linear, natural cubic). f: cubic/linear Fit on 6 fit grids (incl. ranges that are not a multiple of the step) with data on a finer grid: "
+      "(linear, natural cubic); plus grids of 40 and 200 knots (uniform / patterned spacing) with 3 ordinate vectors. f: cubic/linear Fit on 7 fit grids (one with 41 knots) (incl. ranges that are not a multiple of the step) with data on a finer grid: "
       "GenerateGrid knots, reproduction of every spline-space function over the ordinate alphabet, membership + normal equations for 12 (thorough 24) "
       "generic data patterns. m: Table::Smooth(n in {0,1,2,5}) on uniform tables of 2..6 points over the ordinate alphabet + lines: end points, "
       "straight lines. distinct_nontrivial = distinct result signatures (rounded mid values/slopes, fit knot values, smoothed vectors)";
